@@ -1,6 +1,6 @@
 SPECIFICATION Spec
 CONSTANTS
-    Names = {"a", "b", "aa", "A", "e_acute", "__x"}
+    Names = {"a", "aa", "A", "e_acute", "__x"}
     Gens = {"Unary"}
     Params = {"P1"}
     Results = {"Rint"}
